@@ -491,7 +491,7 @@ def generator_checks(P, env, rng, tier):
         # independent round trip: a file written here must come back item for item (quantities expanded in order)
         cl, cw, ch = P.params["container"]
         rows = [("a", min(1000, cl), min(700, cw), min(300, ch), 3), ("b", min(1100, cl), min(430, cw), min(250, ch), 1),
-                ("c", cl, cw, ch, 2), ("d", 1, 2, 3, 4)]
+                ("a", cl, cw, ch, 2), ("d", 1, 2, 3, 4)]  # the name "a" twice with different sizes: names are labels, every row counts
         fd, path = tempfile.mkstemp(prefix="jmon-binpack-own-", suffix=".csv")
         try:
             with os.fdopen(fd, "w", newline="") as f:
